@@ -1,0 +1,194 @@
+//go:build verif
+
+// Verification hook (add-only, compiled only with -tags verif): drives the two relays of one
+// proxied HTTP/2 session over caller-supplied in-memory framers, one input frame at a time and
+// without goroutine timing, so that a harness can run dense deterministic frame scripts through
+// relay.processFrame and observe exactly what reaches each endpoint and what stays queued.
+// Nothing here is reachable without the build tag.
+
+package h2
+
+import (
+	"fmt"
+	"net/url"
+	"sort"
+	"sync/atomic"
+
+	"golang.org/x/net/http2"
+)
+
+// VerifRelayPair holds the client-to-server and server-to-client relays wired as in Config.Proxy.
+type VerifRelayPair struct {
+	cToS, sToC *relay
+	debug      bool
+	writeErr   error
+}
+
+// VerifNewRelayPair wires two relays exactly as Config.Proxy does. cf is the framer facing the
+// client (reads what the client sent, writes what the client receives), sf the one facing the
+// server. factories may be nil (no stream processors: the relayAdapter sinks are used directly).
+func VerifNewRelayPair(cf, sf *http2.Framer, u *url.URL, factories []StreamProcessorFactory) *VerifRelayPair {
+	p := &VerifRelayPair{}
+	label := "server"
+	if u != nil {
+		label = u.String()
+	}
+	cToS := newRelay(ClientToServer, "client", label, cf, sf, &p.debug)
+	sToC := newRelay(ServerToClient, label, "client", sf, cf, &p.debug)
+	cToS.peer, sToC.peer = sToC, cToS
+	cToS.processors = &streamProcessors{
+		create: func(id uint32) *Processors {
+			ps := &Processors{cToS: &relayAdapter{id, cToS}, sToC: &relayAdapter{id, sToC}}
+			for i := len(factories) - 1; i >= 0; i-- {
+				a, b := factories[i](u, ps)
+				if a == nil {
+					a = ps.ForDirection(ClientToServer)
+				}
+				if b == nil {
+					b = ps.ForDirection(ServerToClient)
+				}
+				ps = &Processors{cToS: a, sToC: b}
+			}
+			return ps
+		},
+	}
+	sToC.processors = cToS.processors
+	p.cToS, p.sToC = cToS, sToC
+	return p
+}
+
+func (p *VerifRelayPair) relay(dir Direction) *relay {
+	if dir == ClientToServer {
+		return p.cToS
+	}
+	return p.sToC
+}
+
+// write does what the writer goroutine of relayFrames does with one frame taken from r.output.
+func (p *VerifRelayPair) write(r *relay, f queuedFrame) {
+	if p.writeErr != nil {
+		return // as in relayFrames: after an output error the remaining frames are dropped
+	}
+	r.destMu.Lock()
+	err := f.send(r.dest)
+	r.destMu.Unlock()
+	if err != nil {
+		p.writeErr = err
+	}
+}
+
+// Step reads one frame from the source framer of the given direction and processes it.
+func (p *VerifRelayPair) Step(dir Direction) error {
+	f, err := p.relay(dir).src.ReadFrame()
+	if err != nil {
+		return fmt.Errorf("reading frame: %w", err)
+	}
+	return p.ProcessFrame(dir, f)
+}
+
+// ProcessFrame feeds one frame to relay.processFrame of the given direction. While it runs, and
+// once more after it returned, both relays' output channels are drained in channel order into
+// their destination framers, which is all the writer goroutine of relayFrames does. It returns
+// processFrame's error, or the first write error.
+func (p *VerifRelayPair) ProcessFrame(dir Direction, f http2.Frame) error {
+	r := p.relay(dir)
+	done := make(chan error, 1)
+	go func() {
+		defer func() {
+			if x := recover(); x != nil {
+				done <- fmt.Errorf("panic in processFrame: %v", x)
+			}
+		}()
+		done <- r.processFrame(f)
+	}()
+	for {
+		select {
+		case q := <-p.cToS.output:
+			p.write(p.cToS, q)
+		case q := <-p.sToC.output:
+			p.write(p.sToC, q)
+		case err := <-done:
+			for {
+				select {
+				case q := <-p.cToS.output:
+					p.write(p.cToS, q)
+				case q := <-p.sToC.output:
+					p.write(p.sToC, q)
+				default:
+					if err == nil {
+						err = p.writeErr
+					}
+					return err
+				}
+			}
+		}
+	}
+}
+
+// VerifQueued describes one frame waiting in a stream's output buffer.
+type VerifQueued struct {
+	Kind      string // data | headers | push_promise | priority | rst_stream
+	FlowSize  int
+	EndStream bool
+	Chunks    []int // header block fragment lengths (headers, push_promise)
+}
+
+// VerifStream is the flow-control state of one stream of one relay.
+type VerifStream struct {
+	ID     uint32
+	Window int
+	Queue  []VerifQueued
+}
+
+// VerifRelaySnapshot is a read-only copy of a relay's flow-control state.
+type VerifRelaySnapshot struct {
+	MaxFrameSize      uint32
+	InitialWindowSize uint32
+	ConnectionWindow  int
+	Streams           []VerifStream // sorted by stream ID
+	LastEncodedLen    int           // length of the header block most recently HPACK-encoded
+}
+
+// Snapshot copies the flow-control state of the relay of the given direction.
+func (p *VerifRelayPair) Snapshot(dir Direction) VerifRelaySnapshot {
+	r := p.relay(dir)
+	var s VerifRelaySnapshot
+	r.flowMu.Lock()
+	s.InitialWindowSize = r.initialWindowSize
+	s.ConnectionWindow = r.connectionWindowSize
+	for id, w := range r.outputBuffers {
+		vs := VerifStream{ID: id, Window: w.windowSize}
+		for e := w.queue.Front(); e != nil; e = e.Next() {
+			q := VerifQueued{FlowSize: e.Value.(queuedFrame).flowControlSize()}
+			switch f := e.Value.(type) {
+			case *queuedDataFrame:
+				q.Kind, q.EndStream = "data", f.endStream
+			case *queuedHeaderFrame:
+				q.Kind, q.EndStream = "headers", f.endStream
+				for _, c := range f.chunks {
+					q.Chunks = append(q.Chunks, len(c))
+				}
+			case *queuedPushPromiseFrame:
+				q.Kind = "push_promise"
+				for _, c := range f.chunks {
+					q.Chunks = append(q.Chunks, len(c))
+				}
+			case *queuedPriorityFrame:
+				q.Kind = "priority"
+			case *queuedRSTStreamFrame:
+				q.Kind = "rst_stream"
+			default:
+				q.Kind = fmt.Sprintf("%T", f)
+			}
+			vs.Queue = append(vs.Queue, q)
+		}
+		s.Streams = append(s.Streams, vs)
+	}
+	r.flowMu.Unlock()
+	sort.Slice(s.Streams, func(i, j int) bool { return s.Streams[i].ID < s.Streams[j].ID })
+	s.MaxFrameSize = atomic.LoadUint32(&r.maxFrameSize)
+	r.encoderMu.Lock()
+	s.LastEncodedLen = r.reencoded.Len()
+	r.encoderMu.Unlock()
+	return s
+}
